@@ -58,18 +58,32 @@ pub fn ref_contains(iv: &IV, v: i64) -> bool {
     }
 }
 
-/// Read a real interval back into the model (width must be <= 64).
-pub fn from_interval(i: &Interval) -> IV {
-    let bits = bv_bits(&i.start);
-    IV { s: sext(bv_u64(&i.start), bits), e: sext(bv_u64(&i.end), bits), stride: i.stride, bits }
+/// Read a real interval of (concretely known, constant-propagated) width `bits` back into the model.
+/// Only for intervals built by the harness itself; results of library calls are inspected through `res_*` below.
+pub fn from_interval(i: &Interval, bits: u32) -> IV {
+    IV { s: sext(bv_val(&i.start, bits), bits), e: sext(bv_val(&i.end, bits), bits), stride: i.stride, bits }
 }
 
-/// Representation invariant of a produced interval.
-pub fn wf(i: &Interval, bits: u32) -> bool {
+/// Read a RESULT interval of the library back into the model.
+///
+/// After an `Option`/`Result` merge inside the library CBMC's constant propagation no longer knows the width of
+/// a produced bitvector, and every apint operation on it (resize, truncate, sub, compare) is then explored on
+/// the heap-storage paths as well. So the harness touches each produced bound exactly once: it checks the width
+/// field, then binds a fresh native value to the bound by ONE apint equality (`assume(bound == mk(bits, fresh))`,
+/// always satisfiable once the width is right) and reasons about the fresh native values from there on.
+pub fn read_back<S: Src>(s: &mut S, i: &Interval, bits: u32) -> Option<IV> {
     if bv_bits(&i.start) != bits || bv_bits(&i.end) != bits {
-        return false;
+        return None;
     }
-    let m = from_interval(i);
+    let rs = s.uw(bits);
+    let re = s.uw(bits);
+    s.assume(i.start == mk(bits, rs));
+    s.assume(i.end == mk(bits, re));
+    Some(IV { s: sext(rs, bits), e: sext(re, bits), stride: i.stride, bits })
+}
+
+/// Representation invariant on the model.
+pub fn wf_iv(m: &IV) -> bool {
     if m.s > m.e {
         return false;
     }
@@ -80,11 +94,23 @@ pub fn wf(i: &Interval, bits: u32) -> bool {
     }
 }
 
+/// Width + representation invariant of an interval whose width is constant-propagated (harness-built or in-place modified).
+pub fn wf(i: &Interval, bits: u32) -> bool {
+    if bv_bits(&i.start) != bits || bv_bits(&i.end) != bits {
+        return false;
+    }
+    wf_iv(&from_interval(i, bits))
+}
+
 macro_rules! result_ok {
     ($s:expr, $r:expr, $bits:expr, $v:expr, $what:literal) => {{
-        chk!($s, wf(&$r, $bits), concat!("C02 ", $what, ": result interval is not well-formed (start<=end, stride 0 iff singleton, stride divides length, width)"));
-        let m = from_interval(&$r);
-        chk!($s, ref_contains(&m, $v), concat!("C02 ", $what, ": concrete result is not a member of the computed interval"));
+        match read_back($s, &$r, $bits) {
+            None => chk!($s, false, concat!("C02 ", $what, ": result interval has the wrong width")),
+            Some(m) => {
+                chk!($s, wf_iv(&m), concat!("C02 ", $what, ": result interval is not well-formed (start<=end, stride 0 iff singleton, stride divides length)"));
+                chk!($s, ref_contains(&m, $v), concat!("C02 ", $what, ": concrete result is not a member of the computed interval"));
+            }
+        }
     }};
 }
 
@@ -116,7 +142,7 @@ pub fn add<S: Src>(s: &mut S, bits: u32, max_stride: u64) {
     s.note(&|| format!("x = {} y = {}", x, y));
     let r = to_interval(&a).add(&to_interval(&b));
     result_ok!(s, r, bits, sext(x.wrapping_add(y) as u64, bits), "add");
-    cov!(s, !r.is_top() && r.stride > 1, "strided non-top sum reached");
+    cov!(s, r.stride > 1, "strided sum reached");
 }
 
 /// sub
@@ -130,7 +156,7 @@ pub fn sub<S: Src>(s: &mut S, bits: u32, max_stride: u64) {
     s.note(&|| format!("x = {} y = {}", x, y));
     let r2 = to_interval(&a).sub(&to_interval(&b));
     result_ok!(s, r2, bits, sext(x.wrapping_sub(y) as u64, bits), "sub");
-    cov!(s, !r2.is_top() && r2.stride > 1, "strided non-top difference reached");
+    cov!(s, r2.stride > 1, "strided difference reached");
 }
 
 /// add / sub
@@ -145,10 +171,10 @@ pub fn add_sub<S: Src>(s: &mut S, bits: u32, max_stride: u64) {
     let (ia, ib) = (to_interval(&a), to_interval(&b));
     let r = ia.add(&ib);
     result_ok!(s, r, bits, sext(x.wrapping_add(y) as u64, bits), "add");
-    cov!(s, !r.is_top() && r.stride > 1, "strided non-top sum reached");
+    cov!(s, r.stride > 1, "strided sum reached");
     let r2 = ia.sub(&ib);
     result_ok!(s, r2, bits, sext(x.wrapping_sub(y) as u64, bits), "sub");
-    cov!(s, !r2.is_top() && r2.stride > 1, "strided non-top difference reached");
+    cov!(s, r2.stride > 1, "strided difference reached");
 }
 
 /// signed_mul
@@ -162,7 +188,7 @@ pub fn mul<S: Src>(s: &mut S, bits: u32, max_stride: u64) {
     s.note(&|| format!("x = {} y = {}", x, y));
     let r = to_interval(&a).signed_mul(&to_interval(&b));
     result_ok!(s, r, bits, sext(x.wrapping_mul(y) as u64, bits), "signed_mul");
-    cov!(s, !r.is_top() && r.stride > 1, "strided non-top product reached");
+    cov!(s, r.stride > 1, "strided product reached");
 }
 
 /// int_2_comp / bitwise_not
@@ -173,7 +199,7 @@ pub fn unary<S: Src>(s: &mut S, bits: u32, max_stride: u64) {
     s.note(&|| format!("x = {}", x));
     let r = to_interval(&a).int_2_comp();
     result_ok!(s, r, bits, sext(x.wrapping_neg() as u64, bits), "int_2_comp");
-    cov!(s, !r.is_top() && r.stride > 1, "strided non-top negation reached");
+    cov!(s, r.stride > 1, "strided negation reached");
     let r2 = to_interval(&a).bitwise_not();
     result_ok!(s, r2, bits, sext(!x as u64, bits), "bitwise_not");
 }
@@ -214,7 +240,7 @@ pub fn subpiece<S: Src>(s: &mut S, bits: u32, low: u32, size: u32, max_stride: u
     let r = to_interval(&a).subpiece(ByteSize::new(low as u64), ByteSize::new(size as u64));
     let v = ((x as u64 & mask(bits)) >> (8 * low)) & mask(8 * size);
     result_ok!(s, r, 8 * size, sext(v, 8 * size), "subpiece");
-    cov!(s, !r.is_top() && a.stride > 1 && r.stride > 0, "non-top subpiece of a strided interval reached");
+    cov!(s, a.stride > 1 && r.stride > 0, "subpiece of a strided interval reached");
 }
 
 /// adjust_end_to_value_in_stride / adjust_start_to_value_in_stride on an interval whose bounds need not be aligned
@@ -230,19 +256,27 @@ pub fn adjust<S: Src>(s: &mut S, bits: u32, max_stride: u64) {
     let from_end = v >= st && v <= en && (if stride == 0 { v == en } else { ((en - v) as u64) % stride == 0 });
     let mut i = Interval { start: mk(bits, st as u64), end: mk(bits, en as u64), stride };
     i.adjust_end_to_value_in_stride();
-    chk!(s, wf(&i, bits), "C02 adjust_end_to_value_in_stride: result interval is not well-formed");
-    let m = from_interval(&i);
-    chk!(s, m.s == st && m.e <= en, "C02 adjust_end_to_value_in_stride: start changed or end increased");
-    if from_start {
-        chk!(s, ref_contains(&m, v), "C02 adjust_end_to_value_in_stride: a value on the stride was removed");
+    match read_back(s, &i, bits) {
+        None => chk!(s, false, "C02 adjust_end_to_value_in_stride: result interval has the wrong width"),
+        Some(m) => {
+            chk!(s, wf_iv(&m), "C02 adjust_end_to_value_in_stride: result interval is not well-formed");
+            chk!(s, m.s == st && m.e <= en, "C02 adjust_end_to_value_in_stride: start changed or end increased");
+            if from_start {
+                chk!(s, ref_contains(&m, v), "C02 adjust_end_to_value_in_stride: a value on the stride was removed");
+            }
+        }
     }
     let mut j = Interval { start: mk(bits, st as u64), end: mk(bits, en as u64), stride };
     j.adjust_start_to_value_in_stride();
-    chk!(s, wf(&j, bits), "C02 adjust_start_to_value_in_stride: result interval is not well-formed");
-    let m2 = from_interval(&j);
-    chk!(s, m2.e == en && m2.s >= st, "C02 adjust_start_to_value_in_stride: end changed or start decreased");
-    if from_end {
-        chk!(s, ref_contains(&m2, v), "C02 adjust_start_to_value_in_stride: a value on the stride was removed");
+    match read_back(s, &j, bits) {
+        None => chk!(s, false, "C02 adjust_start_to_value_in_stride: result interval has the wrong width"),
+        Some(m2) => {
+            chk!(s, wf_iv(&m2), "C02 adjust_start_to_value_in_stride: result interval is not well-formed");
+            chk!(s, m2.e == en && m2.s >= st, "C02 adjust_start_to_value_in_stride: end changed or start decreased");
+            if from_end {
+                chk!(s, ref_contains(&m2, v), "C02 adjust_start_to_value_in_stride: a value on the stride was removed");
+            }
+        }
     }
     cov!(s, stride > 1 && from_start && v != st, "inner value on the stride reached");
 }
@@ -259,9 +293,14 @@ pub fn adjust_rem<S: Src>(s: &mut S, bits: u32, max_stride: u64) {
     let sel = v >= a.s && v <= a.e && (v - rem as i64).rem_euclid(stride as i64) == 0;
     match to_interval(&a).adjust_to_stride_and_remainder(stride, rem) {
         Ok(r) => {
-            chk!(s, wf(&r, bits), "C02 adjust_to_stride_and_remainder: result interval is not well-formed");
-            if sel {
-                chk!(s, ref_contains(&from_interval(&r), v), "C02 adjust_to_stride_and_remainder: a value in the residue class was removed");
+            match read_back(s, &r, bits) {
+                None => chk!(s, false, "C02 adjust_to_stride_and_remainder: result interval has the wrong width"),
+                Some(m) => {
+                    chk!(s, wf_iv(&m), "C02 adjust_to_stride_and_remainder: result interval is not well-formed");
+                    if sel {
+                        chk!(s, ref_contains(&m, v), "C02 adjust_to_stride_and_remainder: a value in the residue class was removed");
+                    }
+                }
             }
             cov!(s, sel && r.stride > 1, "strided result reached");
         }
@@ -274,12 +313,16 @@ pub fn adjust_rem<S: Src>(s: &mut S, bits: u32, max_stride: u64) {
 }
 
 crate::harnesses! {
+    // quick: all 1-byte intervals with strides <= 15; thorough: strides <= 255 (every well-formed 1-byte interval)
     @quick c02_contains_8[4] => contains_eq(8, 255);
     c02_contains_64_s16[4] => contains_eq(64, 16);
-    @quick c02_add_8[4] => add(8, 255);
-    @quick c02_sub_8[4] => sub(8, 255);
+    @quick c02_add_8_s15[4] => add(8, 15);
+    @quick c02_sub_8_s15[4] => sub(8, 15);
+    @quick c02_mul_8_s15[4] => mul(8, 15);
+    c02_add_8[4] => add(8, 255);
+    c02_sub_8[4] => sub(8, 255);
+    c02_mul_8[4] => mul(8, 255);
     c02_add_16_s15[4] => add(16, 15);
-    @quick c02_mul_8[4] => mul(8, 255);
     @quick c02_unary_8[4] => unary(8, 255);
     c02_unary_64_s16[4] => unary(64, 16);
     @quick c02_zext_8_16[4] => zext(8, 16, 255);
@@ -290,5 +333,6 @@ crate::harnesses! {
     c02_subpiece_32_1_2[4] => subpiece(32, 1, 2, 15);
     c02_subpiece_32_0_2[4] => subpiece(32, 0, 2, 15);
     @quick c02_adjust_8[4] => adjust(8, 255);
-    @quick c02_adjust_rem_8[4] => adjust_rem(8, 255);
+    @quick c02_adjust_rem_8_s15[4] => adjust_rem(8, 15);
+    c02_adjust_rem_8[4] => adjust_rem(8, 255);
 }
